@@ -9,6 +9,7 @@ mod c05;
 mod c09;
 mod c01;
 mod c03;
+mod c14;
 
 fn main() {
     let args: Vec<String> = std::env::args().collect();
@@ -66,6 +67,7 @@ fn generate(prop: &str, seed: u64, thorough: bool) -> Vec<serde_json::Value> {
         "C01" | "C02" | "C17" => c01::generate(prop, seed, thorough),
         "C03" | "C04" | "C15" => c03::generate(prop, seed, thorough),
         "C12" => c08::generate_c12(seed, thorough),
+        "C14" => c14::generate(seed, thorough),
         other => { eprintln!("unknown property {}", other); std::process::exit(2); }
     }
 }
@@ -79,6 +81,7 @@ fn run_case(prop: &str, id: usize, input: &serde_json::Value) {
         "C09" => c09::run_case(id, input),
         "C01" | "C02" | "C17" => c01::run_case(id, input),
         "C03" | "C04" | "C15" => c03::run_case(id, input),
+        "C14" => c14::run_case(id, input),
         other => { eprintln!("unknown property {}", other); std::process::exit(2); }
     }
 }
